@@ -95,7 +95,7 @@ func nativeReplay(key string, files []string, timeoutMs int, race bool) (map[str
 		return res, "", nil
 	}
 	info := pkgTable[key]
-	gen := filepath.Join(verifDir, "out", "gen", key)
+	gen := genDir(key)
 	if _, err := os.Stat(filepath.Join(gen, "overlay.json")); err != nil {
 		if _, _, err := genOverlay(key); err != nil {
 			return nil, "", err
@@ -514,6 +514,11 @@ func cmdCheck(args []string) int {
 	if err := os.WriteFile(filepath.Join(verifDir, "evidence", prop+".json"), eb, 0o644); err != nil {
 		fmt.Fprintln(os.Stderr, err)
 		return 2
+	}
+	if tier == "thorough" {
+		// kept as well under evidence/thorough/: evidence/<id>.json is rewritten by the next quick run
+		os.MkdirAll(filepath.Join(verifDir, "evidence", "thorough"), 0o755)
+		os.WriteFile(filepath.Join(verifDir, "evidence", "thorough", prop+".json"), eb, 0o644)
 	}
 
 	// ---- verdict ----
